@@ -7,6 +7,7 @@ import (
 	"io"
 	"net/http"
 	"net/url"
+	"runtime"
 	"strconv"
 	"strings"
 	"sync"
@@ -183,6 +184,7 @@ type BuildOpts struct {
 	Only       int // >=0: build only the route with this ID (alone-eligibility), in its service
 	OnlySvc    int // >=0: build only this service index
 	WriteBody  bool
+	Switched   bool // configure the other router first, then the wanted one (router switching must be unobservable)
 }
 
 func DefaultBuild(router string) BuildOpts {
@@ -229,6 +231,7 @@ func selFilter(where string) restful.FilterFunction {
 			o.Sels = append(o.Sels, ev)
 			o.mu.Unlock()
 		}
+		runtime.Gosched() // a suspension point between route selection and the route function
 		chain.ProcessFilter(req, resp)
 	}
 }
@@ -299,6 +302,13 @@ func NewService(s *SvcSpec, order []int, o BuildOpts, svcIdx int) *restful.WebSe
 // Build turns a Table into a real container.
 func Build(t *Table, o BuildOpts) *restful.Container {
 	c := restful.NewContainer()
+	if o.Switched {
+		if o.Router == "jsr311" {
+			c.Router(restful.CurlyRouter{})
+		} else {
+			c.Router(restful.RouterJSR311{})
+		}
+	}
 	if o.Router == "jsr311" {
 		c.Router(restful.RouterJSR311{})
 	} else {
